@@ -3,8 +3,8 @@
    Vocabulary (Model/FastlogOps.v): [wf l] the buffer has 2048 bytes; [fits l t] index + |t| <= 2048;
    [appended l t r] the call r returned a line whose text is the text of l followed by exactly t;
    [fld name t] = " name=" ++ t.  Reference renderings: Spec/TextSpec.v. *)
-From PV Require Import Base.Prelude Model.Fastlog Model.FastlogOps Model.FastlogViews Model.FastlogAsFound Spec.TextSpec
-  Proofs.Fastlog Proofs.FastlogIP6 Proofs.FastlogLine Proofs.FastlogInside Proofs.FastlogMsg Proofs.FastlogViews Proofs.FastlogAsFound.
+From PV Require Import Base.Prelude Model.Fastlog Model.FastlogOps Model.FastlogViews Model.FastlogAsFound Spec.TextSpec Spec.TextSpecParse
+  Proofs.Fastlog Proofs.FastlogIP6 Proofs.FastlogLine Proofs.FastlogInside Proofs.FastlogMsg Proofs.FastlogViews Proofs.FastlogDenote Proofs.FastlogNoFit Proofs.FastlogAsFound.
 Open Scope N_scope.
 
 (* Uint8 / Uint16 / Uint32 print strconv's decimal text *)
@@ -212,6 +212,76 @@ Example C20_views_nonvacuous :
   List.length (concat (map spec_text (flatten (ops_of (VBytes KIP4 ex_ip4))))) = 87%nat.
 Proof. exact views_nonvacuous. Qed.
 Print Assumptions C20_views_nonvacuous.
+
+(* ---- the reference renderings denote their values: parse (render x) = x
+   (Spec/TextSpecParse.v holds the readers; C20_spec_dec_value above is the decimal one) *)
+
+Theorem C20_spec_hex2_value : forall b, b < 256 -> hex_value (hex2 b) = b.
+Proof. exact hex2_value. Qed.
+Print Assumptions C20_spec_hex2_value.
+
+Theorem C20_spec_hex4_value : forall w, w < 65536 -> hex_value (hex4 w) = w.
+Proof. exact hex4_value. Qed.
+Print Assumptions C20_spec_hex4_value.
+
+Theorem C20_spec_hexnl_value : forall w, w < 65536 -> hex_value (hexnl w) = w.
+Proof. exact hexnl_value. Qed.
+Print Assumptions C20_spec_hexnl_value.
+
+Theorem C20_spec_mac_parse : forall m, m <> [] -> bytes_ok m -> parse_mac (mac_text m) = m.
+Proof. exact mac_text_parse. Qed.
+Print Assumptions C20_spec_mac_parse.
+
+Theorem C20_spec_ip4_parse : forall a, a <> [] -> parse_ip4 (ip4_text a) = a.
+Proof. exact ip4_text_parse. Qed.
+Print Assumptions C20_spec_ip4_parse.
+
+(* RFC 5952 text read back by the RFC 4291 rule ("::" = the zero groups that make eight) gives the eight groups *)
+Theorem C20_spec_ip6_parse : forall g,
+  List.length g = 8%nat -> Forall (fun w => w < 65536) g -> parse_ip6 (ip6_plain g) = g.
+Proof. exact ip6_plain_parse. Qed.
+Print Assumptions C20_spec_ip6_parse.
+
+(* ---- calls that do NOT fit (the property promises faithful lines only "whenever it fits") *)
+
+(* whatever a call does, fitting or not: if it returns, the buffer still has its 2048 bytes *)
+Theorem C20_buffer_never_grows : forall os l l', wf l -> run_ops l os = Ok l' -> wf l'.
+Proof. exact run_ops_keeps. Qed.
+Print Assumptions C20_buffer_never_grows.
+
+(* appendByte on a full line panics *)
+Theorem C20_nofit_append_byte : forall l b, (BUFSZ <= index l)%nat -> append_byte l b = Panic.
+Proof. exact append_byte_full. Qed.
+Print Assumptions C20_nofit_append_byte.
+
+(* copy never panics inside the buffer: it cuts the value at byte 2048 *)
+Theorem C20_nofit_copy_truncates : forall l s, wf l -> (index l <= BUFSZ)%nat ->
+  exists l', copy_in l s = Ok l' /\ wf l' /\ index l' = Nat.min (index l + List.length s) BUFSZ /\
+             text_of l' = text_of l ++ firstn (BUFSZ - index l) s.
+Proof. exact copy_in_truncates. Qed.
+Print Assumptions C20_nofit_copy_truncates.
+
+(* ToString panics exactly when the index has passed the buffer *)
+Theorem C20_tostring_panics_iff : forall l, to_string l = Panic <-> (BUFSZ < index l)%nat.
+Proof. exact to_string_panics. Qed.
+Print Assumptions C20_tostring_panics_iff.
+
+(* the three outcomes of a non-fitting scalar call, each witnessed (and replayed on the code by corpus/C20) *)
+Example C20_nofit_panics : run_op (full_line 2047) (OUint [97] 7) = Panic.
+Proof. exact nofit_panics. Qed.
+Print Assumptions C20_nofit_panics.
+
+Example C20_nofit_truncates :
+  exists l', run_op (full_line 2040) (OBytes [97] [49; 50; 51; 52; 53; 54; 55; 56; 57]) = Ok l' /\
+             index l' = BUFSZ /\ skipn 2040 (text_of l') = [32; 97; 61; 49; 50; 51; 52; 53].
+Proof. exact nofit_truncates. Qed.
+Print Assumptions C20_nofit_truncates.
+
+Example C20_nofit_index_past :
+  exists l', run_op (full_line 2040) (OIP [97] (Some [10; 0; 0; 1]) [49; 48; 46; 48; 46; 48; 46; 49]) = Ok l' /\
+             (BUFSZ < index l')%nat /\ to_string l' = Panic.
+Proof. exact nofit_index_past. Qed.
+Print Assumptions C20_nofit_index_past.
 
 (* ---------------------------------------------------------------------------------------------
    The code AS FOUND (/repo 040c128) violated the property in five ways; each was reproduced on
